@@ -60,10 +60,18 @@ def flat(mapping, sc_r=None, el_r=None, prefix=()):
             sub = flat(val, sc_r, el_r, path)
             out += sub or [{'p': list(path), 'v': {'k': 'e', 's': 0, 'l': []}}]
         elif isinstance(val, (list, tuple)):
-            out.append({'p': list(path), 'v': {'k': 'l', 's': 0, 'l': [el_r[(type(x).__name__, x)] for x in val]}})
+            out.append({'p': list(path), 'v': {'k': 'l', 's': 0, 'l': [_code(el_r, x) for x in val]}})
         else:
-            out.append({'p': list(path), 'v': {'k': 's', 's': sc_r[(type(val).__name__, val)], 'l': []}})
+            out.append({'p': list(path), 'v': {'k': 's', 's': _code(sc_r, val), 'l': []}})
     return sorted(out, key=lambda e: e['p'])
+
+
+def _code(table, val):
+    """dictionary code of a python value; 99999 for a value no source ever contained"""
+    try:
+        return table.get((type(val).__name__, val), 99999)
+    except TypeError:  # unhashable
+        return 99999
 
 
 def canon(entries):
@@ -87,7 +95,7 @@ def toml_text(mapping, style):
     """two spellings of the same document: inline tables, or [header] tables"""
     if style == 0:
         return ''.join(f'{k} = {toml_inline(v)}\n' for k, v in mapping.items())
-    lines, tables = [], []
+    lines = []
 
     def emit(path, table):
         scalars = [(k, v) for k, v in table.items() if not isinstance(v, dict)]
@@ -166,6 +174,31 @@ def run_stack(stack, mode, tmp, style=0):
     return trail
 
 
+def config_worker(args):
+    _, items, sdir = args
+    out = []
+    for n, vec, modes in items:
+        stack = [canon(x) for x in vec['stack']]
+        want = [canon(t) for t in vec['trail']]
+        nested = [nest(x) for x in stack]
+        if any(flat(nst) != src for nst, src in zip(nested, stack)):
+            raise tlc.MachineryError(f'translator round trip failed on {stack}')
+        res = []
+        for mode in modes:
+            try:
+                trail = run_stack(nested, mode, sdir, style=n)
+            except Exception as exc:  # pylint: disable=broad-except
+                res.append((mode, 'raised', f'{type(exc).__name__}: {exc}'))
+                continue
+            if all(got == want[i - 1] for i, got in trail):
+                res.append((mode, 'ok', trail[-1][1] if n % 4999 == 0 else None))
+            else:
+                res.append((mode, 'obs', {'kind': 'merge', 'stack': stack, 'steps': [i for i, _ in trail],
+                                          'trail': [t for _, t in trail]}))
+        out.append(res)
+    return out
+
+
 def random_table(rnd, depth, keys):
     out = {}
     for key in rnd.sample(keys, rnd.randint(1, len(keys))):
@@ -186,7 +219,7 @@ def config_part(chk, rnd, tmp):
     if chk.quick:
         runs = [('P4', 'L7', 1, 3, True), ('P6', 'L4', 2, 2, True)]
     else:
-        runs = [('P6', 'L7', 1, 3, True), ('P6', 'L7', 2, 2, True), ('P4', 'L5', 1, 4, False), ('P4', 'L4', 3, 2, True)]
+        runs = [('P6', 'L7', 1, 3, True), ('P6', 'L7', 2, 2, True), ('P4', 'L4', 1, 4, False)]
     vectors = []
     for n, (paths, leaves, assign, depth, export) in enumerate(runs):
         res = chk.tlc('Config', config_cfg(os.path.join(tmp, f'cfg{n}.cfg'), paths, leaves, assign, depth, export),
@@ -200,34 +233,31 @@ def config_part(chk, rnd, tmp):
 
     # ---- spec -> code: replay every exported stack, results after every step against TLC's values
     batch, meta = [], []
-    sdir = tempfile.mkdtemp(prefix='cfgfiles-', dir=tmp)
-    replayed = 0
+    items = []
     for n, vec in enumerate(vectors):
-        stack = [canon(s) for s in vec['stack']]
-        want = [canon(t) for t in vec['trail']]
-        nested = [nest(s) for s in stack]
-        if any(flat(nst) != src for nst, src in zip(nested, stack)):
-            raise tlc.MachineryError(f'translator round trip failed on {stack}')
         if chk.quick:  # one manner per stack; the file-based ones (slow) for every tenth stack
             modes = (('files', 'read')[n // 10 % 2],) if n % 10 == 0 else (('update', 'kwargs', 'pairs')[n % 3],)
-        else:
-            modes = MODES
-        for mode in modes:
-            try:
-                trail = run_stack(nested, mode, sdir, style=n)
-            except Exception as exc:  # pylint: disable=broad-except
-                chk.fail(f'Config ({mode}) raised {type(exc).__name__}: {exc} on a valid stack',
-                         {'kind': 'merge', 'stack': stack, 'mode': mode})
-                continue
-            if all(got == want[i - 1] for i, got in trail):
+        else:  # every manner for every tenth stack, one for the others
+            modes = MODES if n % 10 == 0 else (MODES[n % len(MODES)],)
+        items.append((n, vec, modes))
+    procs = 1 if chk.quick else 4
+    sdirs = [tempfile.mkdtemp(prefix='cfgfiles-', dir=tmp) for _ in range(procs)]
+    replayed = 0
+    for (n, vec, modes), outcomes in zip(items, fan_out(config_worker, 'c', items, procs, dirs=sdirs)):
+        for mode, kind, payload in outcomes:
+            if kind == 'ok':
                 chk.validated()
                 replayed += 1
                 if n % 4999 == 0:
-                    chk.sample({'config_stack': nested, 'mode': mode, 'result': nest(trail[-1][1])})
+                    chk.sample({'config_stack': [nest(canon(x)) for x in vec['stack']], 'mode': mode, 'result': nest(payload)})
+            elif kind == 'raised':
+                chk.fail(f'Config ({mode}) raised {payload} on a valid stack',
+                         {'kind': 'merge', 'stack': [canon(x) for x in vec['stack']], 'mode': mode})
             else:  # not literally TLC's value: the requirement-level relation decides
-                batch.append({'kind': 'merge', 'stack': stack, 'steps': [i for i, _ in trail], 'trail': [t for _, t in trail]})
-                meta.append({'kind': 'merge', 'stack': stack, 'mode': mode, 'exported': True})
+                batch.append(payload)
+                meta.append({'kind': 'merge', 'stack': payload['stack'], 'mode': mode, 'exported': True})
     chk.extra['config_exported_replays'] = replayed
+    sdir = sdirs[0]
 
     # ---- code -> spec: deeper / wider random stacks
     count = 1500 if chk.quick else 20000
@@ -244,7 +274,8 @@ def config_part(chk, rnd, tmp):
             continue
         batch.append({'kind': 'merge', 'stack': stack, 'steps': [i for i, _ in trail], 'trail': [t for _, t in trail]})
         meta.append({'kind': 'merge', 'stack': stack, 'mode': mode, 'exported': False})
-    shutil.rmtree(sdir, ignore_errors=True)
+    for path in sdirs:
+        shutil.rmtree(path, ignore_errors=True)
 
     # ---- section resolution observations
     sec_batch, sec_meta = section_observations(chk, rnd)
@@ -327,11 +358,12 @@ def coder(strings):
 
     def codes(val):
         if isinstance(val, str):
-            return rank[val]
+            return rank.get(val, 99999)  # a string that occurs nowhere in the scenario: no code of the dictionary
         if isinstance(val, float) and val.is_integer():
-            return int(val)
-        assert isinstance(val, int) and not isinstance(val, bool) and 0 <= val < 100, val
-        return val
+            val = int(val)
+        if isinstance(val, int) and not isinstance(val, bool) and 0 <= val < 100:
+            return val
+        return 99998
 
     return codes
 
@@ -432,13 +464,14 @@ def section_selftest():
 
 # ---------------------------------------------------------------------------------------------------------------------
 # provider bank: shared vocabulary
-def bank_cfg(path, n, a, m, modules, gets, export, impl=None, invariants=True):
+def bank_cfg(path, n, a, m, modules, gets, export, impl=None, invariants=True, steptables=True):
     inv = ['SingleClass', 'AbstractNeverReturned', 'UnknownMissing', 'CollisionsRejected', 'OrderIndependent', 'LazySound']
     if impl is not None:
         inv += ['ImplOutcome', 'ImplRefines', 'ImplWithin', 'ImplOrderFree']
     with open(path, 'w') as fh:
         fh.write(f'SPECIFICATION {"ISpec" if impl is not None else "Spec"}\nCONSTANTS N = {n}\n A = {a}\n M = {m}\n'
-                 f' UseModules = {"TRUE" if modules else "FALSE"}\n MaxGets = {gets}\n DoExport = {"TRUE" if export else "FALSE"}\n')
+                 f' UseModules = {"TRUE" if modules else "FALSE"}\n MaxGets = {gets}\n DoExport = {"TRUE" if export else "FALSE"}\n'
+                 f' StepTables = {"TRUE" if export and steptables else "FALSE"}\n')
         if impl is not None:
             fh.write(f' Atomic = {"TRUE" if impl == "atomic" else "FALSE"}\n')
         for i in (inv if invariants else []):
@@ -479,6 +512,18 @@ def known_partial(cls, order_acc, rejected, via, t, n):
     return 0
 
 
+def full_table(sparse, vias, a, n):
+    """Every (interface, reference) pair of the domain with its expectation; pairs TLC did not list are
+    'missing, and nothing may be returned' (Bank!Table is exported sparsely)."""
+    listed = {(r['via'], r['t'], r['n']): r for r in sparse}
+    out = []
+    for via in sorted(vias):
+        for t, top in ((1, a + 1), (2, n + 1)):
+            for num in range(1, top + 1):
+                out.append(listed.get((via, t, num)) or {'via': via, 't': t, 'n': num, 'must': 0, 'may': 0})
+    return out
+
+
 class Hierarchy:
     """Real provider classes for one universe, created under a fresh abstract root (fresh name -> fresh BANK entries)."""
 
@@ -512,10 +557,16 @@ class Hierarchy:
     def ref(self, t, n):
         return f'al{n}' if t == 1 else f'{MOD}:S{self.sid}C{n}'
 
-    def get(self, via, t, n):
+    def get(self, via, t, n, pad=None):
+        """via[ref]; with `pad` (a resolved setup.Provider section naming the alias) the way the runtime does it:
+        forml.runtime._pad.ensure_instance(section, interface) -> class of the instance"""
         import forml
         try:
-            got = self.obj[via][self.ref(t, n)]
+            if pad is not None:
+                from forml.runtime import _pad
+                got = type(_pad.ensure_instance(pad, self.obj[via]))
+            else:
+                got = self.obj[via][self.ref(t, n)]
         except forml.MissingError:
             return 0
         except Exception as exc:  # pylint: disable=broad-except
@@ -532,7 +583,7 @@ def _fresh():
 
 def replay_direct(vec, sid):
     """Replay one exported registration history; returns list of problems (dicts)."""
-    cls = vec['u']['cls']
+    cls, alias_count = vec['cls'], vec['A']
     h = Hierarchy(sid, cls)
     problems = []
     accepted, rejected = [], []
@@ -542,10 +593,14 @@ def replay_direct(vec, sid):
         want = 'ok' if ev['out'] == 'ok' else 'rejected'
         (accepted if ev['out'] == 'ok' else rejected).append(c)
         if out != want:
-            problems.append({'what': f'class statement of class {c} ({cls[c - 1]}) after {accepted + rejected}: {out}, '
+            problems.append({'what': f'class statement of class {c} ({cls[c - 1]}) after {(accepted + rejected)[:-1]}: {out}, '
                                      f'required {ev["out"]}', 'step': step, 'known': 0})
             break
-        for row in sorted(ev['table'], key=lambda r: (r['via'], r['t'], r['n'])):
+        last = step == len(vec['hist']) - 1
+        if not (vec['steptables'] or last):
+            continue
+        sparse = ev['table'] if vec['steptables'] else vec['table']
+        for row in full_table(sparse, [0] + accepted, alias_count, len(cls)):
             got = h.get(row['via'], row['t'], row['n'])
             if got != row['must']:
                 pred = known_partial(cls, accepted, rejected, row['via'], row['t'], row['n'])
@@ -556,11 +611,21 @@ def replay_direct(vec, sid):
 
 
 def direct_worker(args):
-    sid0, vectors = args
-    out = []
-    for k, vec in enumerate(vectors):
-        out.append(replay_direct(vec, f'{sid0}x{k}'))
-    return out
+    tag, vectors, _ = args
+    return [replay_direct(vec, f'{tag}x{k}') for k, vec in enumerate(vectors)]
+
+
+def fan_out(worker, tag, items, procs, dirs=None):
+    """Run worker over items in `procs` forked processes (round robin), results in item order."""
+    if procs <= 1:
+        return worker((tag, items, dirs[0] if dirs else None))
+    chunks = [items[i::procs] for i in range(procs)]
+    with multiprocessing.get_context('fork').Pool(procs) as pool:
+        parts = pool.map(worker, [(f'{tag}{i}', ch, dirs[i] if dirs else None) for i, ch in enumerate(chunks)])
+    results = [None] * len(items)
+    for i, part in enumerate(parts):
+        results[i::procs] = part
+    return results
 
 
 def describe(cls):
@@ -581,39 +646,33 @@ def bank_direct_part(chk, tmp):
                                f'violates {res.violated}: the known finding {FINDING}'}
     # ---- spec -> code
     vectors = []
-    for n, a in ([(3, 2)] if chk.quick else [(3, 2), (4, 2)]):
-        res = chk.tlc('Bank', bank_cfg(os.path.join(tmp, f'bx{n}.cfg'), n, a, 1, False, 0, True, invariants=False),
-                      require=['Register'], workers=4 if chk.quick else 8)
-        vectors += res.json_prints()
+    for n, a, steptables in ([(3, 2, True)] if chk.quick else [(3, 2, True), (4, 2, False)]):
+        res = chk.tlc('Bank', bank_cfg(os.path.join(tmp, f'bx{n}.cfg'), n, a, 1, False, 0, True, invariants=False,
+                                       steptables=steptables), require=['Register'], workers=4 if chk.quick else 8)
+        got = res.json_prints()
+        for vec in got:
+            vec['A'], vec['steptables'] = a, steptables
+        vectors += got
+        del res
     if not vectors:
         raise tlc.MachineryError('Bank.tla exported no behaviour')
-    procs = 1 if chk.quick else 4
-    if procs == 1:
-        results = direct_worker(('d', vectors))
-    else:
-        chunks = [vectors[i::procs] for i in range(procs)]
-        with multiprocessing.get_context('fork').Pool(procs) as pool:
-            parts = pool.map(direct_worker, [(f'd{i}', ch) for i, ch in enumerate(chunks)])
-        results = [None] * len(vectors)
-        for i, part in enumerate(parts):
-            results[i::procs] = part
+    results = fan_out(direct_worker, 'd', vectors, 1 if chk.quick else 4)
     lookups = 0
     for k, (vec, problems) in enumerate(zip(vectors, results)):
-        lookups += sum(len(ev['table']) for ev in vec['hist'])
+        lookups += len(full_table([], range(len(vec['acc']) + 1), vec['A'], len(vec['cls']))) * (len(vec['hist']) if vec['steptables'] else 1)
         order = [ev['a'] for ev in vec['hist']]
-        replay = {'kind': 'direct', 'cls': vec['u']['cls'], 'order': order}
+        replay = {'kind': 'direct', 'cls': vec['cls'], 'order': order}
         if not problems:
             chk.validated()
             if k % 1499 == 0:
-                chk.sample({'hierarchy': describe(vec['u']['cls']), 'registration_order': order,
+                chk.sample({'hierarchy': describe(vec['cls']), 'registration_order': order,
                             'outcomes': [ev['out'] for ev in vec['hist']]})
         for p in problems:
-            chk.fail(f'{p["what"]} in hierarchy {describe(vec["u"]["cls"])} order {order}', dict(replay, step=p['step']),
+            chk.fail(f'{p["what"]} in hierarchy {describe(vec["cls"])} order {order}', dict(replay, step=p['step']),
                      finding=FINDING if p['known'] else None)
     # binding self-test: a corrupted expectation is noticed by the comparison used above
-    vec = json.loads(json.dumps(next(v for v in vectors if any(r['must'] for r in v['hist'][-1]['table']))))
-    row = next(r for r in vec['hist'][-1]['table'] if r['must'])
-    row['must'] = 0
+    vec = json.loads(json.dumps(next(v for v in vectors if v['steptables'] and any(r['must'] for r in v['hist'][-1]['table']))))
+    next(r for r in vec['hist'][-1]['table'] if r['must'])['must'] = 99  # a class that does not exist
     chk.selftest('bank_direct_corrupted_expectation_noticed', bool(replay_direct(vec, 'selftest')))
     chk.extra['bank_direct'] = {'behaviours_replayed': len(vectors), 'lookups_compared': lookups}
 
@@ -624,8 +683,8 @@ class Materialised:
     """One universe written as python modules: <p>_root (the abstract root interface, search path = package <p>_pkg),
     <p>_pkg/al<k>.py for modules named after alias k (auto-discovered), <p>_ext<m>.py for the others."""
 
-    def __init__(self, base, sid, u):
-        self.cls, self.names = u['cls'], u['name']
+    def __init__(self, base, sid, vec):
+        self.cls, self.names = vec['cls'], vec['name']
         self.p = f'c20s{sid}'
         self.dir = base
         self.modname = {m: (f'{self.p}_pkg.al{k}' if k else f'{self.p}_ext{m}') for m, k in enumerate(self.names, start=1)}
@@ -699,7 +758,7 @@ class Materialised:
 
 
 def replay_modules(vec, sid, base):
-    mat = Materialised(base, sid, vec['u'])
+    mat = Materialised(base, sid, vec)
     problems = []
     try:
         for step, ev in enumerate(vec['hist']):
@@ -712,7 +771,7 @@ def replay_modules(vec, sid, base):
                     problems.append({'what': f'interface {ev["a"]}[{mat.ref(ev["t"], ev["n"])}] answered {got or "missing"}, '
                                              f'allowed {allowed} (0 = missing)', 'step': step})
                     return problems
-        for row in sorted(vec['table'], key=lambda r: (r['via'], r['t'], r['n'])):
+        for row in full_table(vec['table'], [0] + list(vec['acc']), vec['A'], len(vec['cls'])):
             got = mat.get(row['via'], row['t'], row['n'])
             allowed = [row['must']] if row['must'] else [0, row['may']]
             if got not in allowed:
@@ -727,7 +786,10 @@ def replay_modules(vec, sid, base):
 def modules_worker(args):
     tag, vectors, base = args
     sys.path.insert(0, base)
-    return [replay_modules(vec, f'{tag}x{k}', base) for k, vec in enumerate(vectors)]
+    try:
+        return [replay_modules(vec, f'{tag}x{k}', base) for k, vec in enumerate(vectors)]
+    finally:
+        sys.path.remove(base)
 
 
 def bank_modules_part(chk, rnd, tmp):
@@ -735,41 +797,37 @@ def bank_modules_part(chk, rnd, tmp):
     chk.tlc('BankImpl', bank_cfg(os.path.join(tmp, 'bm.cfg'), n, a, m, True, gets, False, impl='asis'),
             require=['IImport', 'ILookup'], workers=4 if chk.quick else 8)
     if not chk.quick:
-        chk.tlc('BankImpl', bank_cfg(os.path.join(tmp, 'bm4.cfg'), 4, 1, 3, True, 1, False, impl='asis'),
+        chk.tlc('BankImpl', bank_cfg(os.path.join(tmp, 'bm4.cfg'), 4, 1, 2, True, 1, False, impl='asis'),
                 require=['IImport', 'ILookup'], workers=8)
     res = chk.tlc('Bank', bank_cfg(os.path.join(tmp, 'bmx.cfg'), n, a, m, True, gets, True, invariants=False),
                   require=['Import', 'Lookup'], workers=4 if chk.quick else 8)
     vectors = res.json_prints()
+    del res
     if not vectors:
         raise tlc.MachineryError('Bank.tla (modules) exported no behaviour')
     total = len(vectors)
     cap = 2500 if chk.quick else 60000
     if total > cap:  # seeded sample of the exported behaviours (all of them are model-checked above)
         vectors = rnd.sample(vectors, cap)
+    for vec in vectors:
+        vec['A'] = a
     base = tempfile.mkdtemp(prefix='mods-', dir=tmp)
     procs = 2 if chk.quick else 4
-    chunks = [vectors[i::procs] for i in range(procs)]
-    with multiprocessing.get_context('fork').Pool(procs) as pool:
-        parts = pool.map(modules_worker, [(f'm{i}', ch, _subdir(base, i)) for i, ch in enumerate(chunks)])
-    results = [None] * len(vectors)
-    for i, part in enumerate(parts):
-        results[i::procs] = part
+    results = fan_out(modules_worker, 'm', vectors, procs, dirs=[_subdir(base, i) for i in range(procs)])
     for k, (vec, problems) in enumerate(zip(vectors, results)):
         events = [(e['op'], e['a'], e['t'], e['n']) for e in vec['hist']]
         if not problems:
             chk.validated()
             if k % 997 == 0:
-                chk.sample({'hierarchy': describe(vec['u']['cls']), 'module_names': vec['u']['name'], 'events': events})
+                chk.sample({'hierarchy': describe(vec['cls']), 'module_names': vec['name'], 'events': events})
         for p in problems:
-            chk.fail(f'{p["what"]} in hierarchy {describe(vec["u"]["cls"])} modules {vec["u"]["name"]}',
-                     {'kind': 'modules', 'u': {'cls': vec['u']['cls'], 'name': vec['u']['name']}, 'hist': vec['hist'],
-                      'table': vec['table']})
+            chk.fail(f'{p["what"]} in hierarchy {describe(vec["cls"])} modules {vec["name"]}',
+                     {'kind': 'modules', 'cls': vec['cls'], 'name': vec['name'], 'acc': vec['acc'], 'A': vec['A'],
+                      'hist': vec['hist'], 'table': vec['table']})
     # binding self-test
     sys.path.insert(0, base)
     vec = json.loads(json.dumps(next(v for v in vectors if any(r['must'] for r in v['table']))))
-    next(r for r in vec['table'] if r['must'])['must'] = 0
-    for r in vec['table']:
-        r['may'] = 0 if not r['must'] else r['may']
+    next(r for r in vec['table'] if r['must'])['must'] = 99  # a class that does not exist
     chk.selftest('bank_modules_corrupted_expectation_noticed', bool(replay_modules(vec, 'selftest', base)))
     sys.path.remove(base)
     shutil.rmtree(base, ignore_errors=True)
@@ -795,8 +853,14 @@ def random_universe(rnd, n, a):
 
 
 def bank_trace_part(chk, rnd):
+    from forml import setup
     count = 400 if chk.quick else 6000
     traces, meta = [], []
+    # provider sections whose `provider` option is the alias: a share of the alias lookups goes the way the runtime
+    # goes (section -> forml.runtime._pad.ensure_instance -> instance of the class found in the bank)
+    setup.CONFIG.update({'C20PAD': {f'al{k}': {'provider': f'al{k}'} for k in range(1, 7)}})
+    pad_section = type(setup.Provider)('Pad', (setup.Provider,), {'INDEX': 'C20PAD', 'GROUP': 'C20PAD'})
+    padded = 0
     for k in range(count):
         n, a = rnd.randint(3, 8), rnd.randint(1, 4)
         cls = random_universe(rnd, n, a)
@@ -823,7 +887,9 @@ def bank_trace_part(chk, rnd):
                         via = rnd.choice(chain(cls, target)[1:])
                         if via and via not in accepted:
                             via = 0
-                got = h.get(via, t, num)
+                pad = pad_section.resolve(f'al{num}') if t == 1 and rnd.random() < 0.3 else None
+                padded += pad is not None
+                got = h.get(via, t, num, pad=pad)
                 if known_at is None and known_partial(cls, accepted, rejected, via, t, num):
                     known_at = len(events)
                 events.append({'op': 'get', 'c': 0, 'out': '', 'via': via, 't': t, 'n': num,
@@ -835,7 +901,7 @@ def bank_trace_part(chk, rnd):
     bad = json.loads(json.dumps(src))
     last = max(i for i, e in enumerate(bad['events']) if e['op'] == 'get')
     bad['events'] = bad['events'][:last + 1]
-    bad['events'][last]['res'] = 0 if bad['events'][last]['res'] else 1
+    bad['events'][last]['res'] = 99  # a class that does not exist
     traces.append(bad)
     verdicts = {}
     size = 2000
@@ -865,7 +931,7 @@ def bank_trace_part(chk, rnd):
                 f'{ev["res"] or "missing"}') + f' at event {matched} of hierarchy {describe(tr["cls"])}, events {tr["events"][:matched]}'
         chk.fail(what, {'kind': 'trace', 'cls': tr['cls'], 'events': tr['events'][:matched + 1]},
                  finding=FINDING if m['known_at'] == matched else None)
-    chk.extra['bank_traces'] = {'traces': count, 'events_validated': events}
+    chk.extra['bank_traces'] = {'traces': count, 'events_validated': events, 'lookups_via_runtime_pad': padded}
 
 
 # ---------------------------------------------------------------------------------------------------------------------
